@@ -75,6 +75,19 @@ CLAIMS["C04"] = ("same engines as C02 (comparator lattice interpretation, sort-b
  "Trusted: go/ssa + go/types, refmt/json, sort.Slice. Not covered: number/string formatting, round-trip equality as values.",
  "DESIGN.md section 3, C04")
 
+CLAIMS["C14"] = ("slice-aliasing effect rule on Path methods, constant agreement (separator), origin/coupling dataflow between appended segment, child node and explored selector (through helper parameters and closures), path rules on Progress.get",
+ "Structural necessary conditions of 'paths address what was visited': no Path method appends to / copies into / stores through the receiver's segment slice; Path.String writes the byte ParsePath splits on and uses no path cleaning; at every descent of every walk the appended segment and the child node originate together (same Next(), lookup by that segment, or coupled parameters at all call sites) and Explore was asked about that segment; Progress.get resolves map steps by the segment's string and list steps by its index, returns no node on any lookup error and loads links through the LinkSystem. Not equality of resolved and visited node.",
+ "Trusted: go/ssa + go/types, strings.FieldsFunc/Builder. Not covered: equality of the resolved node with the visited one, the error-exactly-when clause, ParsePath(String(p)) == p as values.",
+ "DESIGN.md section 3, C14")
+CLAIMS["C15"] = ("must-pass-through on the walk functions, who-may-touch tables for the control fields, threshold normalisation of the budget comparisons, guarded-by rule for the seen-set",
+ "Structural necessary conditions of 'controls only restrict': each recursive walk function consults the node budget exactly once, in its entry block, before any visit or descent; budget counters, PastStartAtPath and SeenLinks are touched only by the functions that implement them; the budget checks fail exactly below 1 and otherwise decrement by 1; every link load is behind a link-budget check; under LinkVisitOnlyOnce loads are behind a deciding seen-set lookup and links are recorded only in the traverse phase; SkipMe becomes a silent nil return. Not the prefix/suffix/subsequence relations themselves.",
+ "Trusted: go/ssa + go/types. Not covered: the metamorphic relations to the unrestricted walk as values, start-path arithmetic, preloader interaction.",
+ "DESIGN.md section 3, C15")
+CLAIMS["C16"] = ("taint rule (loaded block content never assigned as node), must-pass-through (store error before AssignLink, a value per loop iteration), client typestate, operator-use rule on PathSegment, coupling of child selector and segment",
+ "Structural necessary conditions of 'transforms are pure functional updates': content loaded from a link re-enters the parent only as the link returned by LinkSystem.Store (same prototype) and only after its error was tested; the rebuild loops keep to the assembler protocol and assemble a value in every iteration except the documented delete; PathSegments are compared with Equals outside datamodel; the child selector of the transforming walk comes from Explore for that child's own segment. WalkTransforming inlining loaded blocks is a listed known finding. Not equality/order of untouched entries as values.",
+ "Trusted: go/ssa + go/types. Not covered: equality and order of untouched entries as values, input immutability (C11), sequences of transforms.",
+ "DESIGN.md section 3, C16")
+
 NOT_APPLICABLE = {
  "C13": "concerns the output of running the code generator on arbitrary schemas and the run-time equivalence of two engines; the generator's logic lives in text/template strings, so no typed program exists to analyse before execution (DESIGN.md section 4)",
 }
